@@ -233,6 +233,7 @@ func runPLYGeneric(src *choice.Source, st *Stats) (fs []Finding) {
 			continue
 		}
 		i := 0
+		var kept [][]fileformats.PLYValue // a caller may keep every row until the end of the stream
 		for {
 			vals, el, err := pr.Read()
 			if err != nil {
@@ -269,7 +270,22 @@ func runPLYGeneric(src *choice.Source, st *Stats) (fs []Finding) {
 				i = -1
 				break
 			}
+			kept = append(kept, vals)
 			i++
+		}
+		if i >= 0 {
+			// rows returned earlier must still hold what was written once the
+			// stream has been read to its end (no storage shared between rows)
+		retained:
+			for k, vals := range kept {
+				for j := range vals {
+					if !valuesEqual(rows[k][j], vals[j]) {
+						fs = append(fs, Finding{"ply_generic|retained-row", fmt.Sprintf("delivery %+v: row %d (%s) property %d read back correctly, but after reading the %d later rows the value kept by the caller is %#v instead of %#v (format %d)", d, k, rowEl[k].Name, j, len(kept)-1-k, vals[j], rows[k][j], format)})
+						i = -1
+						break retained
+					}
+				}
+			}
 		}
 		st.account(r)
 		if i >= 0 && i != len(rows) {
